@@ -26,7 +26,10 @@ RULE = ('fault enumeration per connect/disconnect cycle: server behaviour at '
         '1..3 cycles on one client object x client {Client, AsyncClient}; '
         'threaded client under fifo and seeded random cooperative schedules. '
         'distinct = distinct (client, open behaviour, transports, probe, '
-        'ender, cycle index) cells')
+        'ender, cycle index) cells; third client world R = AsyncClient over a '
+        'REAL aiohttp.ClientSession (in-memory pipes to an HTTP/1.1 + RFC '
+        '6455 front-end of the scripted server); probe answers include '
+        'undecodable and empty frames')
 ASSUMPTIONS = ['transport timeouts are honoured by the fake transports in '
                'virtual time (request_timeout=5 s, advertised pi=2 s pt=1 s)',
                'a client is given 60 virtual seconds to settle after the '
